@@ -19,8 +19,17 @@
 (*              o = [fixed   |-> Fixed::from(F2Dot14) raw,                 *)
 (*                   back    |-> F2Dot14::from(Fixed(4x + k)), k = -2..1,  *)
 (*                   f32     |-> F2Dot14::from(f32::from(x))]              *)
+(*  FvarRead    a = [bytes |-> the fvar table]                             *)
+(*              o = [ok, err, axes |-> <<<<tag hi16, tag lo16, min, def,   *)
+(*                   max, flags, nameID>>, ...>>  (FvarTable::axes),       *)
+(*                   insts |-> <<[sub, flags, coords, ps], ...>>           *)
+(*                   (FvarTable::instances; ps = -1: no postScriptNameID)] *)
 (* The verdict on every value is Normalize!Verdict (exact rational         *)
-(* arithmetic, tolerance max(1, slope) units of 2.14).                     *)
+(* arithmetic, tolerance max(1, slope) units of 2.14); every segment map   *)
+(* whose from-coordinates are in order is judged (MapJudged).  What a      *)
+(* reader must see in an fvar table is Normalize!FvarAxes / FvarInstances  *)
+(* of the table bytes.  One CLASS line per Normalize event counts which    *)
+(* rule of the avar step decided each value (inputs only; vacuity).        *)
 (***************************************************************************)
 EXTENDS Normalize, Json, IOUtils, TLC
 
@@ -40,7 +49,27 @@ V(e, i, j) ==
   IF Failed(e, i) THEN ""                      \* reported once per event, below
   ELSE Verdict(U14, e.a.axes[j], e.a.avar, MapOfAxis(e, j), e.a.tuples[i][j], e.o.outs[i][j])
 
-AxisJudged(e, j) == ValidAxis(e.a.axes[j]) /\ MapUsable(U14, MapOfAxis(e, j))
+AxisJudged(e, j) == ValidAxis(e.a.axes[j]) /\ MapJudged(MapOfAxis(e, j))
+
+\* which rule of the specification decides value i of axis j (classification of the inputs only)
+ValueClass(e, i, j) ==
+  LET map == MapOfAxis(e, j)
+      n == DefNorm(e.a.axes[j], e.a.tuples[i][j])
+      rule == IF e.a.avar THEN AvarRule(U14, map, n) ELSE "noavar"
+  IN IF rule # "segment" THEN rule
+     ELSE LET k == CHOOSE k \in 1 .. Len(map) - 1 : SegHolds(U14, map, n, k) IN
+          IF SegClamped(U14, map, n, k) THEN "segment-clamped"
+          ELSE IF KnotT(map, k + 1) < KnotT(map, k) THEN "segment-down"
+          ELSE IF KnotT(map, k + 1) = KnotT(map, k) THEN "segment-flat"
+          ELSE "segment-up"
+Classes == {"noavar", "identity", "below", "above", "record", "segment-clamped", "segment-down", "segment-flat",
+            "segment-up"}
+EmitClass(e) ==
+  LET NA == Len(e.a.axes)
+      NT == Len(e.a.tuples)
+      J == {j \in 1 .. NA : AxisJudged(e, j)}
+      CC == [i \in 1 .. NT, j \in J |-> ValueClass(e, i, j)]
+  IN PrintT(<<"CLASS", ToJson([cl \in Classes |-> Cardinality({p \in (1 .. NT) \X J : CC[p[1], p[2]] = cl})])>>)
 
 JudgeNormalize(e) ==
   LET NA == Len(e.a.axes)
@@ -68,7 +97,7 @@ JudgeNormalize(e) ==
                                          got |-> IF e.o.ok[i] THEN e.o.outs[i] ELSE <<>>,
                                          err |-> e.o.err[i], nbad |-> Cardinality(bad)])>>)
   /\ \A j \in 1 .. NA :
-       IF ~(AxisJudged(e, j) /\ MapMonotone(MapOfAxis(e, j))) THEN TRUE
+       IF ~(AxisJudged(e, j) /\ (~e.a.avar \/ MonotoneDemanded(U14, MapOfAxis(e, j)))) THEN TRUE
        ELSE LET good == {i \in 1 .. NT : e.o.ok[i] /\ Len(e.o.outs[i]) = NA}
                 bad == {p \in good \X good :
                            e.a.tuples[p[1]][j] <= e.a.tuples[p[2]][j] /\ e.o.outs[p[1]][j] > e.o.outs[p[2]][j]}
@@ -87,6 +116,22 @@ JudgeLen(e) ==
                                     clause |-> "length", axis |-> 0, ax |-> <<e.a.naxes, e.a.len>>,
                                     avar |-> e.a.avar, map |-> <<>>, v |-> e.a.len, got |-> <<>>,
                                     err |-> e.o.err, nbad |-> 1])>>)
+
+\* what FvarTable::read / axes() / instances() report about a well-formed table
+JudgeFvarRead(e) ==
+  LET b == e.a.bytes IN
+  IF ~FvarWellFormed(b) THEN PrintT(<<"OUTSIDE", ToJson([i |-> e.i, axis |-> 0])>>)
+  ELSE LET clause == IF ~e.o.ok THEN "read-failed"
+                     ELSE IF e.o.axes # FvarAxes(b) THEN "axes"
+                     ELSE IF e.o.insts # FvarInstances(b) THEN "instances"
+                     ELSE "" IN
+       IF clause = "" THEN TRUE
+       ELSE PrintT(<<"MISMATCH", ToJson([i |-> e.i, case |-> e.case, ev |-> e.ev, via |-> "read",
+                                         clause |-> clause, axis |-> 0,
+                                         ax |-> <<BU16(b, 4), BU16(b, 8), BU16(b, 10), BU16(b, 12), BU16(b, 14)>>,
+                                         avar |-> FALSE, map |-> <<>>, v |-> 0,
+                                         got |-> IF clause = "instances" THEN e.o.insts ELSE e.o.axes,
+                                         err |-> e.o.err, nbad |-> 1])>>)
 
 ConvBad(e) ==
   {k \in 1 .. e.a.n :
@@ -113,7 +158,8 @@ TNext ==
   /\ l <= Len(Rec)
   /\ l' = l + 1
   /\ LET e == Rec[l] IN
-     CASE e.ev = "Normalize"    -> JudgeNormalize(e)
+     CASE e.ev = "Normalize"    -> JudgeNormalize(e) /\ EmitClass(e)
+       [] e.ev = "FvarRead"     -> JudgeFvarRead(e)
        [] e.ev = "NormalizeLen" -> JudgeLen(e)
        [] e.ev = "Conv"         -> JudgeConv(e)
        [] OTHER                 -> PrintT(<<"UNMODELLED", e.ev>>)
